@@ -106,6 +106,8 @@ META = {"C38": {
 import re, shutil, base64
 LEX_FILES = ["text/Lexer.tla", "text/MC_Lexer.tla", "text/MC_Lexer_q.cfg", "text/MC_Lexer_t.cfg",
              "text/Trace_Lexer.tla", "text/Trace_Lexer.cfg"]
+LEXIN_FILES = ["text/LexerInputs.tla", "text/MC_LexerInputs.tla", "text/MC_LexerInputs_q.cfg", "text/MC_LexerInputs_t.cfg",
+               "text/MC_LexerInputs_t5.cfg"]
 
 
 def validate_lexer_trace(ctx, trace_path, tag, timeout=3000):
@@ -133,9 +135,13 @@ def check_C37(ctx):
     # 1. the position functions: incremental (line, col) = function of the offset, for every tokenisation and history
     r0 = ctx.tlc(LEX_FILES, "MC_Lexer", "MC_Lexer_q.cfg" if ctx.quick else "MC_Lexer_t.cfg", workers=4, tag="mc-lexer", timeout=1500)
     # 2. record lexer / parser / checker behaviour in sub-processes
-    n_small, n_big, chunks, tmo = (1300, 50, 6, 40) if ctx.quick else (8000, 400, 8, 60)
+    # 1b. the model universe of comment / line-break layouts (LexerInputs.tla): every fragment sequence up to a bound
+    rin = [ctx.tlc(LEXIN_FILES, "MC_LexerInputs", c, workers=2, tag="lexinputs-" + c[16:-4], timeout=1500)
+           for c in (["MC_LexerInputs_q.cfg"] if ctx.quick else ["MC_LexerInputs_t.cfg", "MC_LexerInputs_t5.cfg"])]
+    n_small, n_big, chunks, tmo = (1000, 50, 8, 40) if ctx.quick else (8000, 400, 8, 60)
     outdir = os.path.join(ctx.work, "lex")
-    ctx.run([binary, "lex", outdir, str(n_small), str(n_big), str(chunks), str(tmo)], timeout=6000)
+    ctx.run([binary, "lex", outdir, str(n_small), str(n_big), str(chunks), str(tmo)] + [os.path.join(r.dir, "tlc.out") for r in rin],
+            timeout=6000)
     summ = json.load(open(os.path.join(outdir, "summary.json")))
     inputs = {r["id"]: r for r in read_ndjson(os.path.join(outdir, "inputs.ndjson"))}
 
@@ -255,8 +261,9 @@ def check_C37(ctx):
     ctx.add_sample({"negative_control": neg_note, "rejected_events": rej_c[:3]})
     ctx.add_sample({"input_kinds": summ["kinds"]})
     return ctx.finish({
-        "states": r0.distinct, "transitions": r0.generated,
+        "states": r0.distinct + sum(r.distinct for r in rin), "transitions": r0.generated + sum(r.generated for r in rin),
         "traces_validated_against_impl": accepted,
+        "model_layout_inputs": summ["kinds"].get("model", 0) + summ["kinds"].get("model-eof", 0),
         "inputs": summ["inputs"], "inputs_judged_token_by_token": summ["small"], "stress_inputs": summ["big"],
         "events_judged_by_tlc": events_total,
         "evaluations": inputs_judged,
